@@ -18,7 +18,7 @@ SUMMARIES = {
     "econf_newKeyFile": Summary([("ok", {0: "new"})]),
     "econf_newIniFile": Summary([("ok", {0: "new"})]),
     # gate: early returns keep the object, the parse-error path frees it and clears the pointer
-    "read_file_with_callback": Summary([("ok", {0: "keep"}), ("fail", {0: "keep"}), ("fail", {0: "null"})]),
+    "read_file_with_callback": Summary([("ok", {0: "keep"}), ("fail", {0: "keep"}), ("fail", {0: "null"})], needs=(0,)),
     "readConfigHistoryWithCallback": Summary([("ok", {0: "new"}), ("fail", {0: "null"}), ("fail", {0: "keep"})]),
     "econf_mergeFiles": Summary([("ok", {0: "new"}), ("fail", {0: "null"})]),
     "merge_econf_files": Summary([("ok", {1: "new"}), ("fail", {1: "keep"})]),
@@ -76,6 +76,7 @@ KIND_TEXT = {
     "free-after-move": "released after ownership was handed over",
     "dangling-out-pointer": "out-pointer left pointing to freed memory",
     "free-of-borrowed": "memory released that the caller still owns",
+    "null-object": "a released object is handed on",
 }
 
 
